@@ -499,6 +499,39 @@ func preInstantiate(script string) (string, bool) {
 			if _, dup := defs[b.kids[1].atom]; !dup && len(lines[li]) < 4000 {
 				defs[b.kids[1].atom] = b.kids[2]
 			}
+		} else if len(lines[li]) < 20000 {
+			// equalities between a name and a compound term inside conjunctions / guarded facts
+			// (e.g. an invariant "curr == &g.nodes[curr.id]"): used as matching hints only, which
+			// is always sound because any instance of an assumption is a consequence of it
+			var walk func(n *sx, depth int)
+			walk = func(n *sx, depth int) {
+				if n.isAtom() || depth > 6 {
+					return
+				}
+				switch n.head() {
+				case "and":
+					for _, k := range n.kids[1:] {
+						walk(k, depth+1)
+					}
+				case "=>":
+					if len(n.kids) == 3 {
+						walk(n.kids[2], depth+1)
+					}
+				case "=":
+					if len(n.kids) == 3 {
+						x, y := n.kids[1], n.kids[2]
+						if !x.isAtom() && y.isAtom() {
+							x, y = y, x
+						}
+						if x.isAtom() && strings.Contains(x.atom, "!") && !y.isAtom() && (y.head() == "elemptr" || y.head() == "fieldptr") {
+							if _, dup := defs[x.atom]; !dup {
+								defs[x.atom] = y
+							}
+						}
+					}
+				}
+			}
+			walk(b, 0)
 		}
 		parsed = append(parsed, b)
 	}
